@@ -962,9 +962,12 @@ def main(tier, replay=None):
             chk.broke("source flag %s is %s in the tree under check: %s %s stated under %s = true and do(es) not apply to it"
                       % (fk, {False: "false (the body lacks the statement)", None: "unknown (shape not recognised)"}[vals.get(fk)], ", ".join(thms),
                          "is" if len(thms) == 1 else "are", fk))
-    for fk in ("SIZED", "POLYGUARD"):
-        if vals.get(fk) is None:
-            chk.broke("source flag %s unknown (shape of the sized draws / of Poly1Dom::random not recognised): the edge family cannot tell what to expect" % fk)
+    for fk, what in (("SIZED", "the guards of repair ba8cf0e (sampling size 0 / 1 of the sized draws of Modular<integral> and GFqDom)"),
+                     ("POLYGUARD", "the guard of repair 7ac0ca5 (`if (d < 0) d = 0;` in Poly1Dom::random(g, r, Degree))")):
+        if vals.get(fk) is not True:
+            chk.broke("source flag %s is %s: %s %s in the tree under check; C20_ring_random_sized / C20_ring_nonzerorandom_sized / C20_gfq_sized_draws / "
+                      "C20_poly_request_with_its_domain then describe a call that crashes or does not return"
+                      % (fk, vals.get(fk), what, "are not" if vals.get(fk) is False else "could not be recognised"))
     if None in (vals.get("NATIVE_DOC") or [None]):
         chk.broke("gmp++_int_rand.inl no longer documents native-integer arguments as bit sizes (level_claimed quotes these comments): %s" % vals.get("NATIVE_DOC"))
     chk.cov["source_flags"] = {k: vals.get(k) for k in ("NORMALISES", "CLAMP", "RESIZE", "ASSIGN", "SIZED", "POLYGUARD")}
